@@ -622,7 +622,9 @@ func (x *fx) evalCall(e *Expr, env *specEnv) *Val {
 		case "deref":
 			p := x.eval(args[0], env)
 			if _, ok := p.T.Underlying().(*types.Pointer); !ok {
-				panic(specErr("deref of non-pointer " + p.T.String()))
+				// a captured variable is a pointer to its cell in the function's
+				// entry environment but its loaded value inside the body
+				return p
 			}
 			m := env.mem
 			if p.M != nil {
